@@ -507,4 +507,251 @@ theorem c11_repItItSIt (hc : CfgOK c) (hw : WFW c cu w) (f l : ItArg) (d : Str) 
   simp only [spec]
   exact w2_spec_itRep _ _ _ _ e7 (by omega)
 
+
+/-- `replace( first, last, str, count2)` on a proper range with a readable, non-empty replacement -/
+theorem w2_replaceItPN (hc : CfgOK c) {s s' : FStr} (hs : WF c s) (f l : ItArg) (a : List Byte) (n2 : Nat)
+    (hr : itRange (abs s) f l = true) (hn : 0 < n2) (ha : n2 ≤ a.length)
+    (h : replaceItPN c s (itOf c s f) (itOf c s l) a n2 = .ok s') :
+    abs s' = ((abs s).take (itPos (abs s) f) ++ a.take n2 ++
+      (abs s).drop (itPos (abs s) f + (itPos (abs s) l - itPos (abs s) f))).take c.L := by
+  obtain ⟨_, e2, e3, e4, _, e6, _⟩ := w2_it hc hs f l hr
+  unfold replaceItPN at h
+  rw [if_neg (by intro hh; rcases hh with hh | hh <;> first | exact e2 hh | omega)] at h
+  simp only [] at h
+  rw [e3, e4] at h
+  have h2 := replaceImpl_abs hc hs _ _ (a := a) (pos2 := 0) (count2 := n2) e6 (by omega) h
+  rw [List.drop_zero] at h2
+  exact h2
+
+theorem c11_repItItPC (hc : CfgOK c) (hw : WFW c cu w) (f l : ItArg) (a : List Byte) (n2 : Nat)
+    (hd : inDomain (npos c) w (.repItItPC f l a n2) = true) : C11Holds c cu w (.repItItPC f l a n2) := by
+  intro w' o h
+  simp only [step] at h
+  obtain ⟨s', h1, rfl, rfl⟩ := mutS_inv h
+  simp only [inDomain, Bool.and_eq_true, decide_eq_true_eq] at hd
+  obtain ⟨⟨hr, hn⟩, ha⟩ := hd
+  obtain ⟨_, _, _, _, _, e6, e7⟩ := w2_it hc hw.1 f l hr
+  have hl := abs_length hw.1
+  refine c11_mut ?_ (w2_replaceItPN hc hw.1 f l a n2 hr hn ha h1)
+  simp only [spec]
+  exact w2_spec_itRep _ _ _ _ e7 (by omega)
+
+theorem c11_repItItIl (hc : CfgOK c) (hw : WFW c cu w) (f l : ItArg) (il : Str)
+    (hd : inDomain (npos c) w (.repItItIl f l il) = true) : C11Holds c cu w (.repItItIl f l il) := by
+  intro w' o h
+  simp only [step] at h
+  obtain ⟨s', h1, rfl, rfl⟩ := mutS_inv h
+  simp only [inDomain, Bool.and_eq_true, decide_eq_true_eq] at hd
+  obtain ⟨hr, hn⟩ := hd
+  obtain ⟨_, _, _, _, _, e6, e7⟩ := w2_it hc hw.1 f l hr
+  have hl := abs_length hw.1
+  unfold replaceItList at h1
+  rw [if_neg (by omega)] at h1
+  have h2 := w2_replaceItPN hc hw.1 f l il il.length hr hn (Nat.le_refl _) h1
+  rw [List.take_length] at h2
+  refine c11_mut ?_ h2
+  simp only [spec]
+  exact w2_spec_itRep _ _ _ _ e7 (by omega)
+
+theorem c11_repItItP (hc : CfgOK c) (hw : WFW c cu w) (f l : ItArg) (a : List Byte)
+    (hd : inDomain (npos c) w (.repItItP f l a) = true) : C11Holds c cu w (.repItItP f l a) := by
+  intro w' o h
+  simp only [step] at h
+  obtain ⟨s', h1, rfl, rfl⟩ := mutS_inv h
+  simp only [inDomain, Bool.and_eq_true, decide_eq_true_eq] at hd
+  obtain ⟨⟨hr, hn⟩, hpos⟩ := hd
+  obtain ⟨_, _, _, _, _, e6, e7⟩ := w2_it hc hw.1 f l hr
+  have hl := abs_length hw.1
+  obtain ⟨k, hk, hlt, hof⟩ := w2_cstr hn
+  rw [hof, List.length_take] at hpos
+  unfold replaceItP at h1
+  rw [hk, bindR_ok] at h1
+  have h2 := w2_replaceItPN hc hw.1 f l a k hr (by omega) (by omega) h1
+  rw [← hof] at h2
+  refine c11_mut ?_ h2
+  simp only [spec]
+  exact w2_spec_itRep _ _ _ _ e7 (by omega)
+
+theorem c11_repItItCC (hc : CfgOK c) (hw : WFW c cu w) (f l : ItArg) (n2 : Nat) (ch : Byte)
+    (hd : inDomain (npos c) w (.repItItCC f l n2 ch) = true) : C11Holds c cu w (.repItItCC f l n2 ch) := by
+  intro w' o h
+  simp only [step] at h
+  obtain ⟨s', h1, rfl, rfl⟩ := mutS_inv h
+  simp only [inDomain, Bool.and_eq_true, decide_eq_true_eq] at hd
+  obtain ⟨hr, hn⟩ := hd
+  obtain ⟨e1, e2, e3, _, e5, e6, e7⟩ := w2_it hc hw.1 f l hr
+  have hl := abs_length hw.1
+  unfold replaceItCh at h1
+  rw [if_neg (by intro hh; rcases hh with hh | hh | hh <;> first | exact e1 hh | exact e2 hh.symm | omega)] at h1
+  rw [e3, e5] at h1
+  unfold replaceCh at h1
+  have h2 := w2_replaceS hc hw.1 _ _ _ e6 h1
+  rw [w2_take_replicate_mid] at h2
+  refine c11_mut (t := (abs w.s).take (itPos (abs w.s) f) ++ List.replicate n2 ch ++
+    (abs w.s).drop (itPos (abs w.s) f + (itPos (abs w.s) l - itPos (abs w.s) f))) ?_ h2
+  simp only [spec, id]
+  exact w2_spec_itRep _ _ _ _ e7 (by omega)
+
+
+/-! ### iterators of another object: `append( first, last)`, `replace( first, last, first2, last2)` -/
+
+/-- an iterator pair `[x, y)` of `o` in std::string order: equal iterators denote an empty range, otherwise a
+    dereferenceable `x` is its position and `y - x` is the number of characters -/
+theorem w2_it2 (hc : CfgOK c) {o : FStr} (ho : WF c o) (x y : ItArg) (h : itPos (abs o) x ≤ itPos (abs o) y) :
+    (itOf c o x = itOf c o y → itPos (abs o) y - itPos (abs o) x = 0) ∧
+    (itOf c o x ≠ itOf c o y → itOf c o x ≠ itEnd c →
+      itOf c o x = itPos (abs o) x ∧ itPos (abs o) x < o.len ∧
+      itMinus c o (itOf c o y) (itOf c o x) = itPos (abs o) y - itPos (abs o) x ∧ itPos (abs o) y ≤ o.len) := by
+  have hl := abs_length ho
+  have h1 := ho.2.1
+  have h2 := hc.hW
+  cases x <;> cases y <;> simp only [itPos, hl] at h <;>
+    simp only [itOf, itAt, itMinus, subW, itEnd, itPos, hl] <;>
+    refine ⟨?_, ?_⟩ <;> (repeat' split) <;> intros <;>
+    first | omega | exact absurd trivial (by assumption) | exact absurd rfl (by assumption)
+
+theorem w2_drop_take_buf (a : List Byte) (len p q : Nat) (hq : q ≤ len) (hl : len ≤ a.length) :
+    ((a.drop p).drop 0).take (q - p) = ((a.take len).drop p).take (q - p) := by
+  have _ := hq; have _ := hl
+  apply List.ext_getElem?
+  intro k
+  fs_pointwise
+
+theorem c11_appendItIt (hc : CfgOK c) (hw : WFW c cu w) (x y : ItArg)
+    (hd : inDomain (npos c) w (.appendItIt x y) = true) : C11Holds c cu w (.appendItIt x y) := by
+  intro w' o h
+  simp only [step] at h
+  obtain ⟨s', h1, rfl, rfl⟩ := mutS_inv h
+  simp only [inDomain] at hd
+  have hxy : itPos (abs w.t) x ≤ itPos (abs w.t) y := of_decide_eq_true hd
+  obtain ⟨z0, zz⟩ := w2_it2 hc hw.2.1 x y hxy
+  have hl := abs_length hw.1
+  have hbt := w2_wf_len hw.2.1
+  refine c11_mut (t := abs w.s ++ ((abs w.t).drop (itPos (abs w.t) x)).take
+    (itPos (abs w.t) y - itPos (abs w.t) x)) rfl ?_
+  unfold appendItIt at h1
+  by_cases hfl : itOf c w.t x = itOf c w.t y ∨ w.s.len = c.L
+  · rw [if_pos hfl] at h1
+    cases h1
+    rcases hfl with heq | hfull
+    · rw [z0 heq, List.take_zero, List.append_nil, abs_take_cap hw.1]
+    · rw [List.take_append_of_le_length (by omega), abs_take_cap hw.1]
+  · rw [if_neg hfl] at h1
+    simp only [] at h1
+    by_cases hend : itOf c w.t x = itEnd c
+    · rw [show itDeref c w.t (itOf c w.t x) = .throw .range_error from by unfold itDeref; rw [if_pos hend]] at h1
+      cases h1
+    · obtain ⟨z1, z2, z3, z4⟩ := zz (not_or.mp hfl).1 hend
+      obtain ⟨b, hb⟩ := okr_get1 (a := w.t.buf) (i := itOf c w.t x) (by omega)
+      rw [show itDeref c w.t (itOf c w.t x) = .ok b from by unfold itDeref; rw [if_neg hend, hb]] at h1
+      simp only [] at h1
+      rw [z3, z1] at h1
+      have h2 := appendImpl_abs hc hw.1 (a := w.t.buf.drop (itPos (abs w.t) x)) (pos := 0)
+        (count := itPos (abs w.t) y - itPos (abs w.t) x) (by simp; omega) h1
+      rw [w2_drop_take_buf w.t.buf w.t.len _ _ z4 hbt] at h2
+      exact h2
+
+/-- `strlen` from a position inside a buffer whose first NUL from there on is at `n` -/
+theorem w2_cstrlenAux_at : ∀ (l : List Byte) (n k : Nat), l[n]? = some 0 → (∀ i, i < n → l[i]? ≠ some 0) →
+    cstrlenAux l k = .ok (k + n)
+  | [], n, k, h, _ => by simp at h
+  | x :: xs, 0, k, h, _ => by
+    have hx : x = 0 := by simpa using h
+    unfold cstrlenAux; rw [if_pos hx]; rfl
+  | x :: xs, n + 1, k, h, hne => by
+    have hx : x ≠ 0 := by
+      intro hx; exact hne 0 (by omega) (by simp [hx])
+    unfold cstrlenAux; rw [if_neg hx]
+    rw [w2_cstrlenAux_at xs n (k + 1) (by simpa using h)
+      (fun i hi => by have := hne (i + 1) (by omega); simpa using this)]
+    congr 1; omega
+
+/-- `strlen( &t[ a])` is the rest of the text when the text has no NUL from `a` on -/
+theorem w2_cstrlen_tail {co : Cfg} {o : FStr} (ho : WF co o) (a : Nat) (ha : a ≤ o.len)
+    (hn : hasNul ((abs o).drop a) = false) : cstrlen (o.buf.drop a) = .ok (o.len - a) := by
+  have hb := w2_wf_len ho
+  unfold cstrlen
+  rw [w2_cstrlenAux_at (o.buf.drop a) (o.len - a) 0, Nat.zero_add]
+  · rw [List.getElem?_drop, show a + (o.len - a) = o.len by omega]; exact ho.2.2
+  · intro i hi hz
+    have hmem : (0 : Byte) ∈ (abs o).drop a := by
+      apply List.mem_of_getElem? (i := i)
+      unfold abs
+      rw [List.getElem?_drop, List.getElem?_take, if_pos (by omega), ← List.getElem?_drop]
+      exact hz
+    unfold hasNul at hn
+    rw [List.contains_iff_mem.mpr hmem] at hn
+    cases hn
+
+theorem w2_it3 (hc : CfgOK c) {o : FStr} (ho : WF c o) (x y : ItArg) (hder : derefable (abs o) x = true)
+    (hlt : itPos (abs o) x < itPos (abs o) y) :
+    itOf c o x ≠ itOf c o y ∧ itOf c o x ≠ itEnd c ∧ itOf c o x = itPos (abs o) x ∧ itPos (abs o) x < o.len ∧
+    itPos (abs o) y ≤ o.len ∧ (itOf c o y = itEnd c → itPos (abs o) y = o.len) ∧
+    (itOf c o y ≠ itEnd c → itMinus c o (itOf c o y) (itOf c o x) = itPos (abs o) y - itPos (abs o) x) := by
+  have hl := abs_length ho
+  have h1 := ho.2.1
+  have h2 := hc.hW
+  cases x with
+  | fin => simp [derefable] at hder
+  | pos k =>
+    cases y <;> simp only [derefable, itPos, hl, decide_eq_true_eq] at hder hlt <;>
+      simp only [itOf, itAt, itMinus, subW, itEnd, itPos, hl] <;>
+      refine ⟨?_, ?_, ?_, ?_, ?_, ?_, ?_⟩ <;> (repeat' split) <;> intros <;>
+      first | omega | exact absurd trivial (by assumption) | exact absurd rfl (by assumption)
+
+/-- C11 for `replace( first, last, first2, last2)`.  When `last2` is `end()` (written so, or an iterator built at
+    a position `≥ length()`), the code measures the source with `strlen`: `inDomain` then excludes an embedded
+    NUL in the source range. -/
+theorem c11_repItItItIt (hc : CfgOK c) (hw : WFW c cu w) (f l x y : ItArg)
+    (hd : inDomain (npos c) w (.repItItItIt f l x y) = true) :
+    C11Holds c cu w (.repItItItIt f l x y) := by
+  intro w' o h
+  simp only [step] at h
+  obtain ⟨s', h1, rfl, rfl⟩ := mutS_inv h
+  simp only [inDomain, Bool.and_eq_true, decide_eq_true_eq] at hd
+  have hr : itRange (abs w.s) f l = true := hd.1.1.1
+  have hlt : itPos (abs w.t) x < itPos (abs w.t) y := hd.1.1.2
+  have hder : derefable (abs w.t) x = true := hd.1.2
+  have hlast : (!actsEnd (abs w.t) y || !hasNul ((abs w.t).drop (itPos (abs w.t) x))) = true := hd.2
+  obtain ⟨e1, e2, e3, e4, _, e6, e7⟩ := w2_it hc hw.1 f l hr
+  obtain ⟨z1, z2, z3, z4, z5, z6, z7⟩ := w2_it3 hc hw.2.1 x y hder hlt
+  have hl := abs_length hw.1
+  have hbt := w2_wf_len hw.2.1
+  have hL := hw.2.1.2.1
+  have hW := hc.hW
+  have hn : itOf c w.t y = itEnd c → hasNul ((abs w.t).drop (itPos (abs w.t) x)) = false := by
+    intro he
+    have hact : actsEnd (abs w.t) y = true := by
+      cases y with
+      | fin => rfl
+      | pos b =>
+        simp only [itOf, itAt, itEnd] at he
+        simp only [actsEnd, decide_eq_true_eq, abs_length hw.2.1]
+        split at he <;> omega
+    rw [hact] at hlast
+    simpa using hlast
+  refine c11_mut (t := (abs w.s).take (itPos (abs w.s) f) ++
+      ((abs w.t).drop (itPos (abs w.t) x)).take (itPos (abs w.t) y - itPos (abs w.t) x) ++
+      (abs w.s).drop (itPos (abs w.s) f + (itPos (abs w.s) l - itPos (abs w.s) f))) ?_ ?_
+  · simp only [spec]
+    exact w2_spec_itRep _ _ _ _ e7 (by omega)
+  unfold replaceItIt at h1
+  rw [if_neg (by intro hh; rcases hh with hh | hh | hh <;> first | exact e1 hh | exact e2 hh | exact z1 hh)] at h1
+  simp only [] at h1
+  obtain ⟨b, hb⟩ := okr_get1 (a := w.t.buf) (i := itOf c w.t x) (by omega)
+  rw [show itDeref c w.t (itOf c w.t x) = .ok b from by unfold itDeref; rw [if_neg z2, hb]] at h1
+  simp only [] at h1
+  rw [e3, e4] at h1
+  by_cases hend : itOf c w.t y = itEnd c
+  · rw [if_pos hend, z3, w2_cstrlen_tail hw.2.1 _ (by omega) (hn hend), bindR_ok] at h1
+    have h2 := replaceImpl_abs hc hw.1 _ _ (a := w.t.buf.drop (itPos (abs w.t) x)) (pos2 := 0)
+      (count2 := w.t.len - itPos (abs w.t) x) e6 (by simp; omega) h1
+    rw [← z6 hend, w2_drop_take_buf w.t.buf w.t.len _ _ z5 hbt] at h2
+    exact h2
+  · rw [if_neg hend, z7 hend, z3] at h1
+    have h2 := replaceImpl_abs hc hw.1 _ _ (a := w.t.buf.drop (itPos (abs w.t) x)) (pos2 := 0)
+      (count2 := itPos (abs w.t) y - itPos (abs w.t) x) e6 (by simp; omega) h1
+    rw [w2_drop_take_buf w.t.buf w.t.len _ _ z5 hbt] at h2
+    exact h2
+
 end CelmaVerif.FixedString
